@@ -157,6 +157,10 @@ func (d *dumper) val(v reflect.Value, path string) {
 			d.sb.WriteString("i:nil")
 			return
 		}
+		if rt, ok := v.Interface().(reflect.Type); ok {
+			d.sb.WriteString("type:" + rt.String()) // never walk runtime type descriptors
+			return
+		}
 		e := v.Elem()
 		et := e.Type()
 		// context values and loggers carry no protocol state
@@ -283,4 +287,35 @@ func Field(obj any, name string) (val any, ok bool) {
 		f = unRO(f)
 	}
 	return f.Interface(), true
+}
+
+// Fields dumps only the named (possibly unexported) fields of the struct pointed to by obj.
+// A missing field is rendered as "?name" (e.g. after a rename), which keeps keys deterministic.
+func Fields(obj any, o *Options, names ...string) string {
+	if o == nil {
+		o = &Options{}
+	}
+	v := reflect.ValueOf(obj)
+	for v.Kind() == reflect.Ptr || v.Kind() == reflect.Interface {
+		if v.IsNil() {
+			return "nil"
+		}
+		v = v.Elem()
+	}
+	var sb strings.Builder
+	if v.Kind() != reflect.Struct {
+		return String(obj, o)
+	}
+	tn := typeName(v.Type())
+	for _, name := range names {
+		f := v.FieldByName(name)
+		if !f.IsValid() {
+			sb.WriteString("?" + name + ",")
+			continue
+		}
+		d := &dumper{seen: map[unsafe.Pointer]int{}, o: o}
+		d.val(f, tn+"."+name)
+		sb.WriteString(name + ":" + d.sb.String() + ",")
+	}
+	return sb.String()
 }
